@@ -215,6 +215,24 @@ pub fn run(tier: Tier, seed: u64) -> i32 {
             }
         }
     }
+    // two outputs whose names differ only in letter case, both supplied, in either order
+    {
+        let sigs = vec![Sig::inp("A", 1, 0), Sig::out("Q", 4), Sig::out("q", 4)];
+        let pr = Program { header: vec!["A".into(), "Q".into(), "q".into()], body: (0..3).map(|j| Stmt::Row(vec![Entry::Lit(j % 2, Radix::Dec), exp(j as usize), exp(j as usize + 1)])).collect() };
+        for order in 0..2 {
+            let mut menu = vec![];
+            for a in [V::Num(0), V::Num(5), V::Z] {
+                for b in [V::Num(1), V::Num(9), V::X] {
+                    let mut ans = vec![("Q".to_string(), a), ("q".to_string(), b)];
+                    if order == 1 {
+                        ans.reverse();
+                    }
+                    menu.push(MenuItem::ans(ans));
+                }
+            }
+            cases.push(Case::new(&format!("outputs Q and q, driver order {order}"), pr.clone(), sigs.clone(), true, menu.clone(), menu, 6));
+        }
+    }
     // one-bit outputs: a number other than 0 and 1 is not a 1
     {
         let sigs = vec![Sig::inp("A", 1, 0), Sig::out("Q", 1), Sig::out("R", 1)];
